@@ -51,12 +51,22 @@ def matrix_case(runner, r, oc, nconf, big=False, support_copy=False):
         if copy_other:
             with scratch() as probe:
                 runner.generate(dict(model, copy_other=True), os.path.join(probe, "out"))
-                support = sorted(set(e2e.snapshot(os.path.join(probe, "out"))) - set(e2e.snapshot(seed_dir)))
+                probe_snap = e2e.snapshot(os.path.join(probe, "out"))
+                support = sorted(set(probe_snap) - set(e2e.snapshot(seed_dir)))
             for rel in r.sample(support, min(len(support), r.randint(1, 3))):
                 p_ = os.path.join(seed_dir, rel)
                 os.makedirs(os.path.dirname(p_), exist_ok=True)
-                with open(p_, "w") as f:
-                    f.write("// support file of an earlier release\n")
+                if r.random() < 0.5 and len(probe_snap[rel]) > 8:
+                    # ... or the shipped file edited in place, its length unchanged (one character of a comment, a digit)
+                    data = bytearray(probe_snap[rel])
+                    k_ = r.randrange(len(data))
+                    data[k_] = ord("#") if data[k_] != ord("#") else ord("%")
+                    with open(p_, "wb") as f:
+                        f.write(bytes(data))
+                    oc.stat("stale_support_files_of_unchanged_length")
+                else:
+                    with open(p_, "w") as f:
+                        f.write("// support file of an earlier release\n")
                 stale.append(rel)
             if stale:
                 oc.stat("cases_with_stale_support_files")
